@@ -18,8 +18,9 @@ func init() {
 		ID: "EO", Props: []string{"C18"}, Min: 8,
 		Doc: `results written outside the sequence writers obey the same discipline (obimatrix and obicount CSV, obisummary JSON/YAML, obiclean --save-ratio CSV, graph and consensus files): in cmd/obitools
 and pkg/obitools (1) every encoding/csv Writer has, after its Flush(), a call of Error() whose result is tested in a branch that ends the program or returns it (Write errors are only kept there);
-(2) in a main function no fmt.Print/Printf/Println (implicit os.Stdout), fmt.Fprint*(os.Stdout, …) or os.Stdout.Write* is a statement of its own — its error is tested — unless the branch exits
-right after (usage, templates) or it prints an error value; (3) a file obtained from os.Create/os.OpenFile: the open error ends the program or is returned (not merely printed); every write to it
+(2) in these packages no fmt.Print/Printf/Println (implicit os.Stdout), fmt.Fprint*(os.Stdout, …) or os.Stdout.Write* is a statement of its own — its error is tested — unless the branch exits
+with a failure status right after (usage), it prints an error value, or (outside main) it stands in the branch of an error test (diagnostic); a template printed before os.Exit(0) is a result: obimultiplex
+--template > /dev/full exited 0 with nothing written, and obifind dropped the errors of every line of its table; (3) a file obtained from os.Create/os.OpenFile: the open error ends the program or is returned (not merely printed); every write to it
 (f.Write*, fmt.Fprint*(f, …)) has its error tested, or goes through a bufio.Writer whose Flush() error is tested; and its Close() error is tested (no bare or deferred Close()).`,
 		Run: runEO,
 	})
@@ -91,14 +92,6 @@ func runEO(c *Ctx, s *Sink) {
 		})
 		return ok
 	}
-	isStdout := func(info *types.Info, e ast.Expr) bool {
-		sel, ok := ast.Unparen(e).(*ast.SelectorExpr)
-		if !ok || sel.Sel.Name != "Stdout" {
-			return false
-		}
-		v, ok := info.ObjectOf(sel.Sel).(*types.Var)
-		return ok && v.Pkg() != nil && v.Pkg().Path() == "os"
-	}
 	c.EachFunc([]string{"cmd/obitools", "pkg/obitools"}, func(p *packages.Package, fd *ast.FuncDecl) {
 		info := p.TypesInfo
 		defs := collectDefsTuple(info, fd)
@@ -148,16 +141,32 @@ func runEO(c *Ctx, s *Sink) {
 		})
 		// (2) prints of a main function
 		file := filepath.Base(c.Fset.Position(fd.Pos()).Filename)
-		if fd.Name.Name == "main" && fd.Recv == nil && file == "main.go" {
+		isMain := fd.Name.Name == "main" && fd.Recv == nil && file == "main.go"
+		{
 			np := 0
-			var visit func(list []ast.Stmt)
-			visit = func(list []ast.Stmt) {
+			testsErr := func(cond ast.Expr) bool {
+				found := false
+				ast.Inspect(cond, func(m ast.Node) bool {
+					if b, ok := m.(*ast.BinaryExpr); ok && b.Op == token.NEQ {
+						if t := info.TypeOf(b.X); t != nil && isErrorType(t) {
+							found = true
+						}
+					}
+					return true
+				})
+				return found
+			}
+			var visit func(list []ast.Stmt, inErr bool)
+			visit = func(list []ast.Stmt, inErr bool) {
 				exits := false
 				for _, st := range list {
 					if es, ok := st.(*ast.ExprStmt); ok {
 						if call, ok := es.X.(*ast.CallExpr); ok {
-							if fn := callee(info, call); fn != nil && fn.Pkg() != nil && fn.Pkg().Path() == "os" && fn.Name() == "Exit" {
-								exits = true
+							if fn := callee(info, call); fn != nil && fn.Pkg() != nil && fn.Pkg().Path() == "os" && fn.Name() == "Exit" && len(call.Args) == 1 {
+								// a failure exit: what was printed before is a usage or an error message, not a result
+								if tv, ok := info.Types[call.Args[0]]; ok && tv.Value != nil && tv.Value.String() != "0" {
+									exits = true
+								}
 							}
 						}
 					}
@@ -196,7 +205,9 @@ func runEO(c *Ctx, s *Sink) {
 						}
 						switch {
 						case exits:
-							s.Pass(nil, key, call.Pos(), "printed in a branch that exits right after (usage, template)")
+							s.Pass(nil, key, call.Pos(), "printed in a branch that exits with a failure status right after (usage, diagnostic)")
+						case !isMain && inErr:
+							s.Pass(nil, key, call.Pos(), "printed in the branch of an error test (diagnostic)")
 						case printsErr:
 							s.Pass(nil, key, call.Pos(), "prints an error value (diagnostic)")
 						default:
@@ -216,20 +227,24 @@ func runEO(c *Ctx, s *Sink) {
 								}
 							}
 						}
-						visit(x.Body.List)
+						visit(x.Body.List, inErr || testsErr(x.Cond))
 						if eb, ok := x.Else.(*ast.BlockStmt); ok {
-							visit(eb.List)
+							visit(eb.List, inErr)
 						}
 					case *ast.BlockStmt:
-						visit(x.List)
+						visit(x.List, inErr)
 					case *ast.ForStmt:
-						visit(x.Body.List)
+						visit(x.Body.List, inErr)
 					case *ast.RangeStmt:
-						visit(x.Body.List)
+						visit(x.Body.List, inErr)
+					case *ast.SwitchStmt:
+						for _, cl := range x.Body.List {
+							visit(cl.(*ast.CaseClause).Body, inErr)
+						}
 					}
 				}
 			}
-			visit(fd.Body.List)
+			visit(fd.Body.List, false)
 		}
 		// (3) files created by the tools
 		nf := 0
@@ -349,4 +364,13 @@ func runEO(c *Ctx, s *Sink) {
 			return true
 		})
 	})
+}
+
+func isStdout(info *types.Info, e ast.Expr) bool {
+	sel, ok := ast.Unparen(e).(*ast.SelectorExpr)
+	if !ok || sel.Sel.Name != "Stdout" {
+		return false
+	}
+	v, ok := info.ObjectOf(sel.Sel).(*types.Var)
+	return ok && v.Pkg() != nil && v.Pkg().Path() == "os"
 }
